@@ -10,7 +10,8 @@ order) of real processes `1..n` operating on one daemon lock file:
 * `c<p>:<cmd>`  process `p` is about to run `<cmd>`: `a` daemon.AcquireLock,
                 `r` Release, `n` NewLocker, `l` Lock(false), `u` Unlock,
                 `c` Close, `h` Held;
-* `r<p>=<res>`  it finished with `<res>` (`ok busy err refused yes no`);
+* `r<p>=<res>/<n>`  it finished with `<res>` (`ok busy err refused yes no`) and `<n>`
+                open descriptors of the lock file;
 * `k<p>`        the parent is about to SIGKILL `p` (or tell it to exit);
 * `z<p>`        the parent has reaped `p`.
 
@@ -65,6 +66,10 @@ def resultOf (s : State) (p : Nat) : Option Res :=
   | .done r => some r
   | _ => none
 
+/-- Result as journalled: the result and the number of open descriptors of the lock file. -/
+def showResult (s : State) (p : Nat) : Option String :=
+  (resultOf s p).map fun r => s!"{showRes r}/{if (s.procs p).fd then 1 else 0}"
+
 inductive Out | silent | tok (t : String) | reject (t : String)
 
 def event (n : Nat) (states : List State) (i : Nat) (tok : String) : List State × Out :=
@@ -83,10 +88,10 @@ def event (n : Nat) (states : List State) (i : Nat) (tok : String) : List State 
   | 'r' :: rest =>
     match (String.ofList rest).toNat? with
     | some p =>
-      let results := (states.filterMap fun s => resultOf s p).map showRes |>.eraseDups
+      let results := (states.filterMap fun s => showResult s p).eraseDups
       if results.contains obs then
         let next := states.filterMap fun s =>
-          if (resultOf s p).map showRes == some obs then step s (.ret p) else none
+          if showResult s p == some obs then step s (.ret p) else none
         (closure n next, .tok obs)
       else ([], .reject s!"!{i}:[{",".intercalate results}]")
     | none => ([], .reject s!"!{i}")
